@@ -54,6 +54,10 @@ CHECKS = {
    text="Universal Coq theorem: for every declaration list the symbol-table model records exactly one level per directive, in source order, with the associativity written. Per generated specification (0-8 levels, every associativity, string/named terminals, rule handles with alternation and extended operators and empty bodies, duplicates inside a level, interleaved declarations), kernel-evaluated: the handle sets of every level equal the declarative reading (one production handle per alternative of a rule handle's expansion), every production handle is one of the grammar's productions, and the levels equal Spec.Precedences of the implementation.",
    note=TB + "Handle sets are validated per specification (the naming of synthesised non-terminals is state-dependent); order/associativity/count is a theorem.",
    tech="Coq proof (levels_in_source_order) + per-instance kernel evaluation + differential correspondence"),
+ "C03": dict(cat="translation_validation",
+   text="Universal Coq theorems about a certified product checker (Reg/Scanner.v): for ANY definition list, automaton and terminal map, if the check evaluates to true then for EVERY text the state reached is accepting iff some definition matches and is attributed to the one terminal that must win (only match, or the single literal among several), and no text is in conflict; a reported conflict witness is a real conflict; a string literal denotes its own characters with escapes resolved. Per explored definition set (disjoint, identical-language, keyword/identifier, prefix chains, nested, overlapping with/without a tie-breaking literal, escaped literals, predefined patterns), kernel-evaluated on the (automaton, terminal map) or conflict verdict dumped from Spec.DFA(): full product of the definitions' partial-derivative automata, not string sampling.",
+   note=TB + "CombineDFA is the dependency's and is validated per instance; the per-definition expressions are the C02 model of each pattern (code-faithful about NUL). D4 was found by this check and fixed.",
+   tech="certified product checker (all texts) per dumped scanner automaton; Coq theorems for the ownership rule, conflicts and literal denotation"),
 }
 
 ORDER = sorted(CHECKS)
